@@ -58,7 +58,8 @@ def exported_module(L, with_tables=True):
            "(* RepGraphs(n)[id+1] = LCClass<n>(id).get_graph().compress()                   *)",
            "(* TableOf(n, conn)[id+1] = <<graph_id, cost, depth>> reported by              *)",
            "(*   circuit_lookup.stabilizer_circuit_lookup(n, conn, id)                     *)",
-           "EXTENDS Integers, Sequences"]
+           "(* EntryIndexByKey(n, conn)[key] = index (1-based) of the table line whose graph has that class key *)",
+           "EXTENDS Classes"]
     for n in range(2, 7):
         reps = []
         for i in range(NUM_CLASSES[n]):
@@ -69,6 +70,7 @@ def exported_module(L, with_tables=True):
         out.append(f"Rep{n} == <<" + ", ".join(map(str, reps)) + ">>")
     out.append("RepGraphs(n) == CASE n = 2 -> Rep2 [] n = 3 -> Rep3 [] n = 4 -> Rep4 [] n = 5 -> Rep5 [] n = 6 -> Rep6")
     arms = []
+    karms = []
     for (n, c) in SUPPORTED:
         name = f"Tab{n}{c}"
         ents = []
@@ -81,7 +83,11 @@ def exported_module(L, with_tables=True):
                     ents.append("<<-1, -1, -1>>")
         out.append(f"{name} == <<" + ", ".join(ents) + ">>")
         arms.append(f'n = {n} /\\ conn = "{c}" -> {name}')
+        out.append(f"KP{n}{c} == {{<<KeyOfGraph({n}, {name}[i][1]), i>> : i \\in 1..Len({name})}}")
+        out.append(f"KI{n}{c} == [k \\in {{p[1] : p \\in KP{n}{c}}} |-> (CHOOSE p \\in KP{n}{c} : p[1] = k)[2]]")
+        karms.append(f'n = {n} /\\ conn = "{c}" -> KI{n}{c}')
     out.append("TableOf(n, conn) == CASE " + "\n   [] ".join(arms) + "\n   [] OTHER -> <<>>")
+    out.append("EntryIndexByKey(n, conn) == CASE " + "\n   [] ".join(karms) + "\n   [] OTHER -> [k \\in {} |-> 0]")
     # gate lists of the table circuits for the small registers (used by the design-level Pipeline model)
     garms = []
     for (n, c) in SUPPORTED:
